@@ -62,6 +62,27 @@ def J():
     return _J
 
 
+PHYS = ('default', 'kappa025', 'small_planet', 'moist_alt')
+
+
+def specs_of(name='default'):
+    """PrimitiveEquationsSpecs built from SI constants; `name` is the JSON-able `phys` key of a case"""
+    j = J()
+    if 'specs_' + name not in j:
+        pe = j['pe']
+        from dinosaur import scales
+        u = scales.units
+        jk = u.J / u.kilogram / u.degK
+        kw = {'default': {},
+              'kappa025': dict(kappa_si=0.25 * u.dimensionless, ideal_gas_constant_si=260.0 * jk),
+              'small_planet': dict(angular_velocity_si=2.5e-4 / u.s, gravity_acceleration_si=24.8 * u.m / u.s ** 2,
+                                   kappa_si=0.3 * u.dimensionless),
+              'moist_alt': dict(kappa_si=0.27 * u.dimensionless, ideal_gas_constant_si=300.0 * jk,
+                                water_vapor_gas_constant_si=520.0 * jk, water_vapor_isobaric_heat_capacity_si=1500.0 * jk)}[name]
+        j['specs_' + name] = pe.PrimitiveEquationsSpecs.from_si(**kw)
+    return j['specs_' + name]
+
+
 GRIDS = {'g5': dict(longitude_wavenumbers=4, total_wavenumbers=5, longitude_nodes=12, latitude_nodes=6),
          'g7': dict(longitude_wavenumbers=6, total_wavenumbers=7, longitude_nodes=18, latitude_nodes=9)}
 
@@ -103,11 +124,11 @@ def present_profile(T, how='float64'):
     return t
 
 
-def make_eq(cls, Tref, oro, coords, va=True, method=None, how='float64'):
+def make_eq(cls, Tref, oro, coords, va=True, method=None, how='float64', phys='default'):
     j = J(); pe = j['pe']
     C = {'dry': pe.PrimitiveEquations, 'time': pe.PrimitiveEquationsWithTime, 'moist': pe.MoistPrimitiveEquations,
          'cloud': pe.MoistPrimitiveEquationsWithCloudMoisture}[cls]
-    return C(present_profile(Tref, how), oro, coords, j['specs'], vertical_matmul_method=method,
+    return C(present_profile(Tref, how), oro, coords, specs_of(phys), vertical_matmul_method=method,
              include_vertical_advection=bool(va))
 
 
@@ -159,11 +180,12 @@ def generate(ctx):
     for r, (cls, K, oro, ntr, va, uni) in enumerate(plan):
         ctx.count('corr:%s K=%d' % (cls, K))
         yield 'corr', {'cls': cls, 'grid': 'g5' if (quick or r % 4) else 'g7', 'K': K, 'b': levels(K, r), 'Tref': profile(K, bool(uni)),
+                       'phys': PHYS[1 + r % 3] if r < 12 else PHYS[r % 4],
                        'oro': oro, 'ntr': ntr, 'va': va, 'seed': int(rng.integers(1 << 30)),
                        'nodes': 4 if quick else (-1 if r in (2, 5) else 10), 'sparse': r % 2}
     # direct calls of _t_omega_over_sigma_sp on arbitrary small-rational arrays
     for K in ([1, 3] if quick else [1, 2, 3, 4, 6]):
-        yield 't_omega', {'K': K, 'b': levels(K, K), 'seed': int(rng.integers(1 << 30))}
+        yield 't_omega', {'K': K, 'b': levels(K, K), 'seed': int(rng.integers(1 << 30)), 'phys': PHYS[K % 4]}
     # the property itself
     oplan = [('dry', 3, 0, 0), ('dry', 2, 1, 1), ('time', 4, 1, 0), ('moist', 3, 1, 0), ('moist', 2, 0, 1), ('cloud', 3, 1, 0),
              ('dry', 1, 1, 0), ('moist', 1, 0, 0)]
@@ -175,7 +197,7 @@ def generate(ctx):
         for s in range(reps):
             ctx.count('oracle:%s K=%d' % (cls, K))
             yield 'oracle', {'cls': cls, 'grid': 'g5' if (quick or (r + s) % 3) else 'g7', 'K': K, 'b': bb,
-                             'T1': profile(K, s == 1 and r % 2 == 0), 'T2': profile(K),
+                             'T1': profile(K, s == 1 and r % 2 == 0), 'T2': profile(K), 'phys': PHYS[1 + (r + s) % 3] if s else 'default',
                              'oro': oro, 'ntr': ntr, 'va': 1, 'seed': int(rng.integers(1 << 30)),
                              'lmax': [9, 1, 2][s % 3], 'amp': [1.0, 8.0, 0.125][(r + s) % 3]}
     # structured reference profiles a random draw never produces: equal end values, plateaus at the
@@ -224,6 +246,7 @@ def generate(ctx):
                                  [(c, K) for c in ('dry', 'time', 'moist', 'cloud') for K in (1, 3, 5)]):
         ctx.count('object_reuse:' + cls)
         yield 'object_reuse', {'cls': cls, 'grid': 'g5', 'K': K, 'b': levels(K, r), 'TA': profile(K, r % 2 == 1), 'TB': profile(K),
+                               'phys': PHYS[(r + 2) % 4],
                                'oro': r % 2, 'ntr': r % 2, 'seed': int(rng.integers(1 << 30)), 'lmax': 9, 'amp': 1.0}
     yield 'cloud_nonzero', dict(CLOUD_ARGS)
 
@@ -250,12 +273,12 @@ def pick_nodes(a, grid):
 
 
 def r_corr(ctx, a):
-    j = J(); pe = j['pe']; sh = j['sh']; specs = j['specs']
+    j = J(); pe = j['pe']; sh = j['sh']; specs = specs_of(a.get('phys', 'default'))
     grid, coords = coords_of(a)
     K = coords.vertical.layers; cls = a['cls']; va = int(a['va'])
     Tref = np.asarray(a['Tref'], dtype=np.float64)
     f = base_fields(a, grid, K)
-    eq = make_eq(cls, Tref, f['oro'], coords, va, 'sparse' if a.get('sparse') else 'dense', a.get('how', 'float64'))
+    eq = make_eq(cls, Tref, f['oro'], coords, va, 'sparse' if a.get('sparse') else 'dense', a.get('how', 'float64'), a.get('phys', 'default'))
     Tp = f['Tdev'] + (250.0 - Tref)[:, None, None] * j['ones'][a.get('grid', 'g5')]
     state = make_state(cls, f['vort'], f['div'], Tp, f['lnps'], f['tracers'])
     st0 = pe.State(f['vort'], f['div'], Tp, f['lnps'], f['tracers'])
@@ -393,14 +416,14 @@ def util_fr(x):
 
 
 def r_t_omega(ctx, a):
-    j = J(); pe = j['pe']; specs = j['specs']
+    j = J(); pe = j['pe']; specs = specs_of(a.get('phys', 'default'))
     K = int(a['K'])
     grid, coords = coords_of(a)
     rng = np.random.default_rng([int(a['seed']), 5])
     shape = (K,) + grid.nodal_shape
     Tf = util.small_rationals(rng, shape, 200 * 8, 300 * 8, 8)
     g = util.small_rationals(rng, shape); vg = util.small_rationals(rng, shape)
-    eq = make_eq('dry', np.full(K, 250.0), np.zeros(grid.modal_shape), coords)
+    eq = make_eq('dry', np.full(K, 250.0), np.zeros(grid.modal_shape), coords, phys=a.get('phys', 'default'))
     out = np.asarray(eq._t_omega_over_sigma_sp(Tf, g, vg))
     ls = np.log(coords.vertical.centers)
     al = pe.get_sigma_ratios(coords.vertical)
@@ -423,7 +446,7 @@ def totals(a, cloud=None):
     res = []
     for T, how in ((a['T1'], a.get('how1', 'float64')), (a['T2'], a.get('how2', 'float64'))):
         Tref = np.asarray(T, dtype=np.float64)
-        eq = make_eq(cls, Tref, f['oro'], coords, a.get('va', 1), None, how)
+        eq = make_eq(cls, Tref, f['oro'], coords, a.get('va', 1), None, how, a.get('phys', 'default'))
         Tp = f['Tdev'] + (250.0 - Tref)[:, None, None] * j['ones'][a.get('grid', 'g5')]
         st = make_state(cls, f['vort'], f['div'], Tp, f['lnps'], f['tracers'])
         e = eq.explicit_terms(st).asdict(); i = eq.implicit_terms(st).asdict()
@@ -455,7 +478,7 @@ def r_oracle(ctx, a):
 def r_cloud_nonzero(ctx, a):
     """Fixed case: the cloud class with non-zero condensate (known deviation on the pinned tree), and the sharper
     statement that the deviation is exactly the missing T_ref*(qc+qi) pressure-gradient term."""
-    j = J(); specs = j['specs']
+    j = J(); specs = specs_of('default')
     aa = dict(a, cls='cloud', grid='g5', oro=1, ntr=0, va=1, lmax=2, amp=1.0)
     grid, coords, f, res = totals(aa)
     (e1, i1), (e2, i2) = [(flat(e), flat(i)) for e, i in res]
@@ -541,15 +564,15 @@ def r_object_reuse(ctx, a):
         Tp = f['Tdev'] + (250.0 - Tref)[:, None, None] * j['ones'][a.get('grid', 'g5')]
         st = make_state(cls, f['vort'], f['div'], Tp, f['lnps'], f['tracers'])
         return flat(eq.explicit_terms(st).asdict()), flat(eq.implicit_terms(st).asdict())
-    fresh = ev(make_eq(cls, TB, f['oro'], coords), TB)
+    fresh = ev(make_eq(cls, TB, f['oro'], coords, phys=a.get('phys', 'default')), TB)
     variants = {}
-    eq = make_eq(cls, TA, f['oro'], coords); first = ev(eq, TA)
+    eq = make_eq(cls, TA, f['oro'], coords, phys=a.get('phys', 'default')); first = ev(eq, TA)
     eq.reference_temperature = present_profile(TB); variants['re-assigned field'] = ev(eq, TB)
-    eq = make_eq(cls, TA, f['oro'], coords); ev(eq, TA)
+    eq = make_eq(cls, TA, f['oro'], coords, phys=a.get('phys', 'default')); ev(eq, TA)
     eq.reference_temperature[:] = TB; variants['in-place overwritten field'] = ev(eq, TB)
-    eq = make_eq(cls, TA, f['oro'], coords); ev(eq, TA)
+    eq = make_eq(cls, TA, f['oro'], coords, phys=a.get('phys', 'default')); ev(eq, TA)
     variants['dataclasses.replace'] = ev(dataclasses.replace(eq, reference_temperature=present_profile(TB)), TB)
-    eq = make_eq(cls, TA, f['oro'], coords); ev(eq, TA)
+    eq = make_eq(cls, TA, f['oro'], coords, phys=a.get('phys', 'default')); ev(eq, TA)
     eq.reference_temperature = present_profile(TB); ev(eq, TB)
     eq.reference_temperature = present_profile(TA); variants_back = ev(eq, TA)
     for name, (e, i) in variants.items():
